@@ -610,12 +610,15 @@ func describeC10Two(a hx.Args) string {
 }
 
 // ---------------------------------------------------------------------------------------------
-// c10reuse: board-in(startpos) ++ [K] ++ K * [kind n moves..]
+// c10reuse: board-in(startpos) ++ [K] ++ K * [kind n payload..]; payload = moves (kinds 0 1 2) or
+// board-in(X) ++ moves (kinds 3 4: position fen X)
 
 type c10ReuseCmd struct {
 	kind int
-	toks []string
+	toks []string // the move tokens
 	ms   []move.Move
+	pre  []string     // kinds 3, 4: the tokens of board-in(X)
+	root *board.Board // kinds 3, 4: X
 }
 
 func c10ReuseParse(in string) (head []string, root *board.Board, cmds []c10ReuseCmd, ok bool) {
@@ -638,7 +641,19 @@ func c10ReuseParse(in string) (head []string, root *board.Board, cmds []c10Reuse
 		if n < 0 || p+2+n > a.Len() {
 			return
 		}
-		cmds = append(cmds, c10ReuseCmd{kind: a.Int(p), toks: toks[p+2 : p+2+n], ms: movesOf(a, p+2, n)})
+		c := c10ReuseCmd{kind: a.Int(p)}
+		q := p + 2
+		if c.kind >= 3 {
+			bl := boardInLen(a, q)
+			if bl < 0 || bl > n {
+				return
+			}
+			c.pre = toks[q : q+bl]
+			c.root, _ = a.Board(q)
+			q += bl
+		}
+		c.toks, c.ms = toks[q:p+2+n], movesOf(a, q, p+2+n-q)
+		cmds = append(cmds, c)
 		p += 2 + n
 	}
 	if p != a.Len() {
@@ -651,7 +666,7 @@ func c10ReuseParse(in string) (head []string, root *board.Board, cmds []c10Reuse
 func c10ReuseJoin(head []string, cmds []c10ReuseCmd) string {
 	parts := [][]string{head, {hexInt(len(cmds))}}
 	for _, c := range cmds {
-		parts = append(parts, []string{hexInt(c.kind), hexInt(len(c.toks))}, c.toks)
+		parts = append(parts, []string{hexInt(c.kind), hexInt(len(c.pre) + len(c.toks))}, c.pre, c.toks)
 	}
 	return hx.JoinToks(parts...)
 }
@@ -663,9 +678,9 @@ func shrinkC10Reuse(in string) []string {
 	}
 	var out []string
 	for k, c := range cmds {
-		if c.kind != 0 {
+		if c.kind == 1 || c.kind == 2 || c.kind == 4 {
 			alt := append([]c10ReuseCmd{}, cmds...)
-			alt[k].kind = 0
+			alt[k].kind = map[int]int{1: 0, 2: 0, 4: 3}[c.kind]
 			out = append(out, c10ReuseJoin(head, alt))
 		}
 	}
@@ -678,6 +693,9 @@ func shrinkC10Reuse(in string) []string {
 		longest := 0
 		caches := make([]*lineCache, len(cmds))
 		for k, c := range cmds {
+			if c.root != nil {
+				continue
+			}
 			longest = max(longest, len(c.ms))
 			caches[k] = newLineCache(root, c.ms)
 		}
@@ -685,7 +703,7 @@ func shrinkC10Reuse(in string) []string {
 			alt := append([]c10ReuseCmd{}, cmds...)
 			hit, ok := 0, true
 			for k, c := range cmds {
-				if len(c.ms) < cut.Hi {
+				if c.root != nil || len(c.ms) < cut.Hi {
 					continue
 				}
 				if !caches[k].cutOK(cut) {
@@ -701,14 +719,18 @@ func shrinkC10Reuse(in string) []string {
 		}
 	}
 	for k, c := range cmds {
-		lc := newLineCache(root, c.ms)
+		r := root
+		if c.root != nil {
+			r = c.root
+		}
+		lc := newLineCache(r, c.ms)
 		for _, cut := range hx.Cuts(len(c.ms), 0) {
 			if !lc.cutOK(cut) {
 				continue
 			}
 			ms := without(c.ms, cut)
 			alt := append([]c10ReuseCmd{}, cmds...)
-			alt[k] = c10ReuseCmd{kind: c.kind, toks: without(c.toks, cut), ms: ms}
+			alt[k] = c10ReuseCmd{kind: c.kind, toks: without(c.toks, cut), ms: ms, pre: c.pre, root: c.root}
 			out = append(out, c10ReuseJoin(head, alt))
 		}
 	}
@@ -727,7 +749,17 @@ func describeC10Reuse(a hx.Args) string {
 	var sb strings.Builder
 	sb.WriteString("reused driver:")
 	for _, c := range cmds {
-		sb.WriteString([]string{" | position startpos moves", " | ucinewgame; position startpos moves", " | position fen <startpos> moves"}[(c.kind%3+3)%3])
+		switch {
+		case c.kind >= 3 && c.root != nil:
+			if c.kind == 4 {
+				sb.WriteString(" | ucinewgame;")
+			} else {
+				sb.WriteString(" |")
+			}
+			sb.WriteString(" position fen " + c.root.FEN() + " moves")
+		default:
+			sb.WriteString([]string{" | position startpos moves", " | ucinewgame; position startpos moves", " | position fen <startpos> moves"}[(c.kind%3+3)%3])
+		}
 		for _, m := range c.ms {
 			sb.WriteString(" " + m.String())
 		}
